@@ -1,9 +1,11 @@
 """C16: the grammar (compiler/src/grammar.pest) -- cost discipline of ordered choice.  pest tries the alternatives of `A | B` in order and re-parses
-the input from the same position for each.  If a later alternative B (a single rule) is ALSO the first thing an earlier alternative parses, and B can
-contain the rule the choice stands in (nesting), then an input that fails deep inside makes every level parse its B twice: 2^depth work for a syntax
-error in nested brackets (D100: `value = math_expr | function | ident | list`, 60 nested `[` with an error inside did not finish).
-The rule graph is extracted from the grammar on every run; for each such pair the verifier checks a certificate (a set of rules closed under
-"can be parsed first", containing what the earlier alternative starts with and NOT containing B).  Over-approximation: optional and repeated prefixes
+the input from the same position for each.  If two alternatives can start with the same terminal and both begin (behind it) with a rule that can
+contain the choice again (nesting), then an input on which the earlier one fails late makes every level of nesting parse that rule twice: 2^depth
+(D100: `value = math_expr | function | ident | list` -- 60 nested `[` with a syntax error inside did not finish; D101: `[A]` was parsed as
+`list_type_open_only` first and as `list_type` again -- a 24-level fixed-shape type annotation did not finish).
+The rule graph is extracted from the grammar on every run; for each such pair the verifier checks certificates: two sets of rules closed under
+"can be parsed first" that contain what each alternative starts with, and a set closed under "mentions" of the rules that cannot contain the
+choice -- whatever is in both of the first two must be in the third.  Over-approximation: optional and repeated prefixes
 are skipped when computing what can come first, predicates (`!x`, `&x`) are ignored."""
 from vlib.rules import *
 import re, os
@@ -82,8 +84,96 @@ def leading(ts):
     return out
 
 
+def leading2(ts):
+    """first NONTERMINALS of a sequence; leading terminals, optional / repeated groups and predicates are skipped (over-approximation)"""
+    out, i = set(), 0
+    while i < len(ts):
+        t = ts[i]
+        if t in ("!", "&"):
+            i += 1
+            if i < len(ts) and ts[i] == "(":
+                d = 1; i += 1
+                while d:
+                    d += (ts[i] == "(") - (ts[i] == ")"); i += 1
+            else:
+                i += 1
+            continue
+        if t == "(":
+            d = 1; j = i + 1
+            while d:
+                d += (ts[j] == "(") - (ts[j] == ")"); j += 1
+            for a in split_alts(ts[i + 1:j - 1]):
+                out |= leading2(a)
+            if j < len(ts) and ts[j] in ("?", "*"):
+                i = j + 1; continue
+            return out
+        if t[0] in "\"'":
+            i += 1; continue
+        if re.match(r"[A-Za-z_]", t):
+            out.add(t)
+            if i + 1 < len(ts) and ts[i + 1] in ("?", "*"):
+                i += 2; continue
+            return out
+        i += 1
+    return out
+
+
+def firstterms(ts, rules, seen=frozenset()):
+    """terminals (and built-in character classes) an alternative can start with, expanding rules"""
+    out, i = set(), 0
+    while i < len(ts):
+        t = ts[i]
+        if t in ("!", "&"):
+            i += 1
+            if i < len(ts) and ts[i] == "(":
+                d = 1; i += 1
+                while d:
+                    d += (ts[i] == "(") - (ts[i] == ")"); i += 1
+            else:
+                i += 1
+            continue
+        if t == "(":
+            d = 1; j = i + 1
+            while d:
+                d += (ts[j] == "(") - (ts[j] == ")"); j += 1
+            for a in split_alts(ts[i + 1:j - 1]):
+                out |= firstterms(a, rules, seen)
+            if j < len(ts) and ts[j] in ("?", "*"):
+                i = j + 1; continue
+            return out
+        if t[0] in "\"'":
+            out.add(t); return out
+        if re.match(r"[A-Za-z_]", t):
+            if t in rules and t not in seen:
+                for a in split_alts(rules[t]):
+                    out |= firstterms(a, rules, seen | {t})
+            elif t not in rules:
+                out.add("<" + t + ">")
+            if i + 1 < len(ts) and ts[i + 1] in ("?", "*"):
+                i += 2; continue
+            return out
+        i += 1
+    return out
+
+
 def mentions(ts):
     return {t for t in ts if re.match(r"[A-Za-z_]", t)}
+
+
+def all_choices(ts):
+    """the ordered choices of a rule body: its top level and every parenthesised group"""
+    out = [split_alts(ts)]
+    i = 0
+    while i < len(ts):
+        if ts[i] == "(":
+            d = 1; j = i + 1
+            while d:
+                d += (ts[j] == "(") - (ts[j] == ")"); j += 1
+            out += all_choices(ts[i + 1:j - 1])
+            i = j
+        else:
+            i += 1
+    return [c for c in out if len(c) > 1]
 
 
 def build(repo):
@@ -93,7 +183,7 @@ def build(repo):
         raise Undecided(f"{FILE}: only {len(rules)} rules recognised")
     names = sorted(rules)
     idx = {n: k for k, n in enumerate(names)}
-    lead = {n: {x for a in split_alts(b) for x in leading(a)} & set(rules) for n, b in rules.items()}
+    lead = {n: {x for a in split_alts(b) for x in leading2(a)} & set(rules) for n, b in rules.items()}
     ment = {n: mentions(b) & set(rules) for n, b in rules.items()}
 
     def closure(start, rel):
@@ -105,43 +195,60 @@ def build(repo):
         return seen
     pairs = []
     for n, b in rules.items():
-        alts = split_alts(b)
-        for k, a in enumerate(alts):
-            if len(a) == 1 and a[0] in rules and n in closure([a[0]], ment):            # B can contain the rule the choice stands in
+        for alts in all_choices(b):
+            for k, a in enumerate(alts):
                 for e in alts[:k]:
-                    pairs.append((n, " ".join(e), leading(e) & set(rules), a[0]))
-    edge = "\n        || ".join(f"(a == {idx[n]} && ({' || '.join(f'b == {idx[x]}' for x in sorted(lead[n]))}))" for n in names if lead[n]) or "false"
+                    if firstterms(a, rules) & firstterms(e, rules):                   # the two alternatives can start alike: the later one is a re-parse
+                        pairs.append((n, " ".join(e), leading2(e) & set(rules), " ".join(a), leading2(a) & set(rules)))
+
+    def disj(var, xs):
+        return " || ".join(f"{var} == {idx[x]}" for x in sorted(xs)) or "false"
+    first_rel = "\n        || ".join(f"(a == {idx[n]} && ({disj('b', lead[n])}))" for n in names if lead[n]) or "false"
+    ment_rel = "\n        || ".join(f"(a == {idx[n]} && ({disj('b', ment[n])}))" for n in names if ment[n]) or "false"
     fns = []
-    for k, (n, etxt, starts, B) in enumerate(pairs):
-        S = closure(starts, lead)
-        ins = " || ".join(f"x == {idx[s]}" for s in sorted(S)) or "false"
+    need_cannot = set()
+    for k, (n, etxt, es, atxt, as_) in enumerate(pairs):
+        need_cannot.add(n)
         fns.append(f"""
-// rule `{n}`: alternative `{B}` after `{etxt[:60]}`
-pub open spec fn cert_{k}(x: int) -> bool {{ {ins} }}
+// rule `{n}`: `{atxt[:50]}` after `{etxt[:50]}` (both can start with the same terminal)
+pub open spec fn cert_e_{k}(x: int) -> bool {{ {disj('x', closure(es, lead))} }}
+pub open spec fn cert_a_{k}(x: int) -> bool {{ {disj('x', closure(as_, lead))} }}
 pub proof fn pair_{k}()
     ensures
-        {' && '.join(f'cert_{k}({idx[s]})' for s in sorted(starts)) or 'true'},                    // what the earlier alternative can start with
-        forall|a: int, b: int| cert_{k}(a) && first(a, b) ==> cert_{k}(b),                          // closed under "can be parsed first"
-        !cert_{k}({idx[B]}),                                                                        // `{B}` is not among it
+        {' && '.join([f'cert_e_{k}({idx[s]})' for s in sorted(es)] + [f'cert_a_{k}({idx[s]})' for s in sorted(as_)]) or 'true'},     // what each alternative parses first
+        forall|a: int, b: int| cert_e_{k}(a) && first(a, b) ==> cert_e_{k}(b), forall|a: int, b: int| cert_a_{k}(a) && first(a, b) ==> cert_a_{k}(b),
+        // whatever both can parse first cannot contain rule `{n}` again: no nesting is parsed twice
+        forall|x: int| cert_e_{k}(x) && cert_a_{k}(x) ==> cannot_contain_{idx[n]}(x),
 {{ }}
 """)
-    log.append(("R0", f"{FILE}: {len(rules)} rules", f"`first(a, b)`: rule b can be the first thing rule a parses; {len(pairs)} ordered-choice pairs to check", "grammar -> rule graph (optional / repeated prefixes skipped, predicates ignored)"))
-    gen = header(log, f"{FILE}: ordered choices whose later alternative nests") + f"""
+    cannot = []
+    for n in sorted(need_cannot):
+        reach_n = {x for x in rules if n in closure([x], ment)}
+        comp = set(rules) - reach_n
+        cannot.append(f"""
+// the rules that cannot contain `{n}`: closed under "mentions", and `{n}` is not among them
+pub open spec fn cannot_contain_{idx[n]}(x: int) -> bool {{ {disj('x', comp)} }}
+pub proof fn cannot_{idx[n]}() ensures forall|a: int, b: int| cannot_contain_{idx[n]}(a) && mentions(a, b) ==> cannot_contain_{idx[n]}(b), !cannot_contain_{idx[n]}({idx[n]}) {{ }}
+""")
+    log.append(("R0", f"{FILE}: {len(rules)} rules", f"`first(a, b)` / `mentions(a, b)` over rule numbers; {len(pairs)} pairs of alternatives that can start with the same terminal", "grammar -> rule graph (leading terminals, optional / repeated prefixes skipped; predicates ignored)"))
+    gen = header(log, f"{FILE}: ordered choices whose alternatives start alike") + f"""
 use vstd::prelude::*;
 verus! {{
 // rule numbers: {', '.join(f'{k}={n}' for n, k in sorted(idx.items(), key=lambda kv: kv[1]))}
 pub open spec fn first(a: int, b: int) -> bool {{
-    {edge}
+    {first_rel}
+}}
+pub open spec fn mentions(a: int, b: int) -> bool {{
+    {ment_rel}
 }}
 //@ OBL C16.grammar.no-reparse-of-nesting-alternative
-{''.join(fns)}
-pub proof fn verif_all() {{ }}
+{''.join(cannot)}{''.join(fns)}
 }} // verus!
 fn main() {{}}
 """
-    return gen, [Obl("C16.grammar.no-reparse-of-nesting-alternative", ["C16"], fn=f"grammar.pest ({len(pairs)} ordered-choice pairs)", desc="no ordered choice of the grammar offers, as a later alternative, a nesting rule that an earlier alternative already starts with (each level of nesting would parse it twice when the input fails inside: 2^depth)")], log
+    return gen, [Obl("C16.grammar.no-reparse-of-nesting-alternative", ["C16"], fn=f"grammar.pest ({len(pairs)} pairs of alternatives)", desc="two alternatives of an ordered choice that can start with the same terminal never both begin with a rule that can contain the choice again (each level of nesting would be parsed twice when the input fails inside: 2^depth)")], log
 
 
-UNITS = [VUnit("c16_grammar", ["C16"], "the grammar does not re-parse a nesting alternative", build)]
-UNITS[0].assumes = ["pest's ordered choice re-parses from the same position (its documented semantics); the `first` relation over-approximates (optional / repeated prefixes skipped, predicates ignored)",
-                    "only this one source of super-linear parsing is under contract; pest itself and the other grammar rules are not"]
+UNITS = [VUnit("c16_grammar", ["C16"], "the grammar does not parse a nesting construct twice", build)]
+UNITS[0].assumes = ["pest's ordered choice re-parses from the same position (its documented semantics); `first` over-approximates (leading terminals, optional / repeated prefixes skipped, predicates ignored)",
+                    "only this source of super-linear parsing is under contract; pest itself is not"]
